@@ -23,7 +23,6 @@ package main
 import (
 	"encoding/json"
 	"fmt"
-	"io/ioutil"
 	"math/rand"
 	"os"
 	"runtime"
@@ -70,8 +69,6 @@ type parserDef struct {
 	// inDecoder (handler-driven entries): does the panic stack pass through the decoder under test?
 	inDecoder func(stack string) bool
 }
-
-func isNilHeader(h *types.BlockHeader) bool { return h == nil }
 
 var typeParsers = []*parserDef{
 	{name: "UnMarshalTransaction", typ: "tx",
@@ -1138,5 +1135,3 @@ func tail(s string, n int) string {
 	}
 	return s
 }
-
-var _ = ioutil.Discard
